@@ -19,7 +19,7 @@ import xeofs as xe
 
 PROP = "C08"
 TAGS = {"C08"}
-INV = ["C01_Descending", "C01_VarianceIdentity", "C08_WeightsArePremultiplication", "C08_CoslatIsWeights",
+INV = ["C01_Descending", "C01_VarianceIdentity", "C08_WeightsArePremultiplication", "C08_WeightsAttachByLabel", "C08_CoslatIsWeights",
        "C08_RescaleInvariant", "Emit"]
 LATNAMES = ["latitude", "lats", "lat", "Latitude", "Lats", "Lat", "LATITUDE", "LATS", "LAT"]
 
@@ -47,7 +47,8 @@ def evaluate(i, scn):
     rng = np.random.default_rng(i + 17)
     n = c["n"]
     cl = "C08_" + {"shift": "ShiftInvariant", "rescale": "RescaleInvariant", "scale": "GlobalScale", "negscale": "GlobalScale",
-                   "premult": "WeightsArePremultiplication", "coslat_as_weights": "CoslatIsWeights", "none": "None"}[rel]
+                   "premult": "WeightsArePremultiplication", "coslat_as_weights": "CoslatIsWeights", "none": "None",
+                   "weights_by_label": "WeightsArePremultiplication"}[rel]
     if rel == "shift":
         sh = rng.uniform(-1e3, 1e3, size=sw.p) * sw.c
         m2 = W.fit_eof(cls, sw, sw.data(shift=sh))
@@ -77,6 +78,19 @@ def evaluate(i, scn):
         w = sw.weights()
         m2 = W.fit_eof(cls, sw, X * w, weights=None)
         W.results_equal(ck, "C08", cl, m1, m2, "weights vs pre-multiplied data", n, pred=scn["pred"])
+    elif rel == "weights_by_label":
+        # the same weights stored in reverse coordinate order (a file with descending latitudes): xarray objects are
+        # paired by label, so this is the same call; and the data stored in reverse order with the weights as they were
+        w = sw.weights()
+        wr = w.isel({sw.fname: slice(None, None, -1)})
+        m2 = W.fit_eof(cls, sw, X, weights=wr)
+        W.results_equal(ck, "C08", cl, m1, m2, "weights stored in reverse coordinate order (same labels)", n, pred=scn["pred"])
+        if len(set(np.asarray(sw.fcoord).tolist())) == sw.p:
+            Xr = X.isel({sw.fname: slice(None, None, -1)})
+            m3 = W.fit_eof(cls, sw, Xr, weights=w)
+            sv1, sv3 = np.asarray(m1.singular_values().values), np.asarray(m3.singular_values().values)
+            ck.m(sv1.shape == sv3.shape and np.allclose(sv1, sv3, rtol=1e-8, atol=1e-10 * max(sv1.max(), 1e-300)), "C08", cl,
+                 f"data stored in reverse feature order with the same labelled weights: singular values {sv3.tolist()} differ from {sv1.tolist()}")
     elif rel == "coslat_as_weights":
         lat = xr.DataArray(np.sqrt(np.clip(np.cos(np.deg2rad(sw.fcoord)), 0, 1)), dims=(sw.fname,), coords={sw.fname: sw.fcoord})
         m2 = W.fit_eof(cls, sw, X, weights=lat, use_coslat=False)
